@@ -63,9 +63,13 @@ static std::string g_kind;
 static std::vector<Tree const*> g_pre;               // nodes in preorder
 static std::map<Tree const*, std::size_t> g_id;      // node -> preorder id
 
+// all coordinates (data and queries) are the integers of the op lines times 2^g_scale (op `scale e`): huge and
+// tiny magnitudes on which every squared distance is still exact; the oracles work on the integers
+static int g_scale = 0;
+static double sc(long long x){ return std::ldexp((double)x, g_scale); }
 static RealVector toVec(std::vector<long long> const& p){
 	RealVector v(p.size());
-	for(std::size_t i = 0; i != p.size(); ++i) v(i) = (double)p[i];
+	for(std::size_t i = 0; i != p.size(); ++i) v(i) = sc(p[i]);
 	return v;
 }
 static long long polyK(std::vector<long long> const& a, std::vector<long long> const& b){
@@ -86,6 +90,7 @@ static void preorder(Tree const* t){
 }
 // reported distance r = sqrt(D) for an integer D (nearest-double rule) -> D
 static std::string sqOfReported(double r){
+	r = std::ldexp(r, -g_scale);
 	double sq = r*r;
 	long long D = (long long)std::floor(sq + 0.5);
 	for(long long c = D-1; c <= D+1; ++c)
@@ -158,7 +163,12 @@ static long long euclid2(std::vector<long long> const& a, std::vector<long long>
 	return s;
 }
 static bool g_perm = true;
-static bool k1Possible(){ return g_perm && g_bucket > 1 && g_t1 != 2 && !treeHasEmptyLeaf() && treeHasDistinctLeaf(); }
+template<class Q> static auto hasLeafQueue(Q* q, int) -> decltype(q->m_nextIndex, true){ return true; }
+template<class Q> static bool hasLeafQueue(Q*, long){ return false; }
+// which queue does this tree's IterativeNNQuery keep?  the leaf queue (member m_nextIndex: the position inside
+// the front leaf; finding K1 lives there) or the point queue of the K1 repair (no such member)
+static bool leafQueue(){ return hasLeafQueue((Query*)0, 0); }
+static bool k1Possible(){ return leafQueue() && g_perm && g_bucket > 1 && g_t1 != 2 && !treeHasEmptyLeaf() && treeHasDistinctLeaf(); }
 
 // reference squared distances of all points to q: the true ones, or (pseudo = true) the distance of the
 // first point of the point's leaf - what the listed defect K1 reports
@@ -206,6 +216,45 @@ struct KDProbe: public KDTree<RealVector>{
 	static std::size_t cutDim(KDTree<RealVector> const* t){ std::size_t KDTree<RealVector>::* p = &KDProbe::m_cutDim; return t->*p; }
 };
 
+// pivot pair of an LC-tree node: m_normal = factor*(x_i - x_j) is re-computed with the expression of
+// LCTree::calculateNormal for every ordered pair of the node's points until it matches bit by bit
+struct LCProbe: public LCTree<RealVector>{
+	static RealVector const& normal(LCTree<RealVector> const* t){ RealVector LCTree<RealVector>::* p = &LCProbe::m_normal; return t->*p; }
+};
+struct KHCProbe: public KHCTree<View>{
+	static std::size_t pos(KHCTree<View> const* t){ KHCTree<View>::const_iterator KHCTree<View>::* p = &KHCProbe::mep_positive; return (t->*p).index(); }
+	static std::size_t neg(KHCTree<View> const* t){ KHCTree<View>::const_iterator KHCTree<View>::* p = &KHCProbe::mep_negative; return (t->*p).index(); }
+};
+static std::pair<std::size_t,std::size_t> pivotOf(Tree const* t){
+	std::size_t none = (std::size_t)-1;
+	if(g_kind == "khc" || g_kind == "khcp"){
+		KHCTree<View> const* k = static_cast<KHCTree<View> const*>(t);
+		return std::make_pair(KHCProbe::pos(k), KHCProbe::neg(k));
+	}
+	if(g_kind == "lc"){
+		// (several pairs may give the same normal vector: the one of largest distance is reported - the model then
+		// checks that it is a farthest pair of the cell)
+		RealVector const& nrm = LCProbe::normal(static_cast<LCTree<RealVector> const*>(t));
+		std::pair<std::size_t,std::size_t> best(none, none); double bestD = -1;
+		for(std::size_t a = 0; a != t->size(); ++a) for(std::size_t b = 0; b != t->size(); ++b){
+			if(a == b) continue;
+			RealVector xi = toVec(g_pts[t->index(a)]), xj = toVec(g_pts[t->index(b)]);
+			double d2 = distanceSqr(xi, xj);
+			double factor = 1.0 / std::sqrt(d2);
+			if(!(boost::math::isfinite)(factor)) factor = 1.0;
+			RealVector cand = factor * (xi - xj);
+			bool same = cand.size() == nrm.size();
+			for(std::size_t d = 0; same && d != cand.size(); ++d) same = cand(d) == nrm(d);
+			if(same && d2 > bestD){ bestD = d2; best = std::make_pair(t->index(a), t->index(b)); }
+		}
+		return best;
+	}
+	return std::make_pair(none, none);
+}
+// which queue does this tree's IterativeNNQuery keep?  the leaf queue (member m_nextIndex: the position inside
+// the front leaf) or the point queue of the K1 repair (no such member)
+template<class Q> static auto nextIndexOf(Q& q, int) -> decltype(q.m_nextIndex){ return q.m_nextIndex; }
+template<class Q> static std::size_t nextIndexOf(Q& q, long){ return q.neighbors() > 0 ? 1 : 0; }
 static std::string canonTree(Tree const* t){
 	std::ostringstream os;
 	if(t->hasChildren()){
@@ -235,7 +284,7 @@ static std::string stateStr(Query& q){
 	std::vector<char> st(g_pre.size(), 'N');
 	traceDigest(q.mp_trace, st);
 	os << "r=" << radiusStr(q.m_squaredRadius) << " qs=" << q.queuesize() << " nb=" << q.neighbors()
-	   << " ni=" << q.m_nextIndex << " hd=";
+	   << " ni=" << nextIndexOf(q, 0) << " hd=";
 	if(q.mep_head) os << g_id[q.mep_head->m_tree]; else os << "-";
 	os << " st=" << std::string(st.begin(), st.end());
 	return os.str();
@@ -265,7 +314,12 @@ int main(int argc, char** argv){
 		if(t.empty()){ std::cout << "\n"; if(annot.is_open()) annot << "\n"; continue; }
 		std::string const& op = t[0];
 		try{
-		if(op == "batch" && t.size() == 2){
+		if(op == "scale" && t.size() == 2){
+			int e = std::stoi(t[1]);
+			if(e < -40 || e > 40){ out << "bad-op"; }
+			else{ g_scale = e; g_tree.reset(); g_view.reset(); g_pts.clear(); g_pre.clear(); g_id.clear(); out << "ok"; }
+		}
+		else if(op == "batch" && t.size() == 2){
 			// batch size of the Data objects created by the following `data` ops (DataView lookups,
 			// numberOfBatches() of the exhaustive search)
 			g_batchSize = std::stoul(t[1]);
@@ -312,11 +366,15 @@ int main(int argc, char** argv){
 				std::vector<Tree const*> sorted(g_pre); std::sort(sorted.begin(), sorted.end(), std::less<Tree const*>());
 				std::map<Tree const*, std::size_t> rank;
 				for(std::size_t i = 0; i != sorted.size(); ++i) rank[sorted[i]] = i;
-				ann << " |";
+				ann << " | " << (leafQueue() ? "LQ" : "PQ");
 				for(Tree const* nd: g_pre){
 					if(nd->hasChildren()){
-						std::size_t cd = g_kind == "kd" ? KDProbe::cutDim(static_cast<KDTree<RealVector> const*>(nd)) : 0;
-						ann << " N " << rank[nd] << " " << cd << " " << vh::exactDouble(nd->threshold());
+						if(g_kind == "kd")
+							ann << " N " << rank[nd] << " " << KDProbe::cutDim(static_cast<KDTree<RealVector> const*>(nd)) << " " << vh::exactDouble(nd->threshold());
+						else{
+							std::pair<std::size_t,std::size_t> pv = pivotOf(nd);
+							ann << " P " << rank[nd] << " " << pv.first << " " << pv.second << " " << vh::exactDouble(nd->threshold());
+						}
 					}else{
 						ann << " L " << rank[nd] << " " << nd->size();
 						for(std::size_t i = 0; i != nd->size(); ++i) ann << " " << nd->index(i);
@@ -369,6 +427,96 @@ int main(int argc, char** argv){
 				out << " !oracle " << failKey(bad, k1Possible() && checkEnumeration(res, refDistances(q, true)).empty(), kh1);
 			}
 		}
+		else if(op == "reg" && t.size() >= 3 + g_dim && (t.size() - 3) % g_dim == 0 && g_tree){
+			// NearestNeighborModel<RealVector, RealVector> (regression) with both back-ends on a batch of query points.
+			// Targets: y_i = (label_i, (7 i + 3) mod 5 - 2)
+			std::size_t k = std::stoul(t[1]); int weighted = std::stoi(t[2]);
+			std::size_t n = g_pts.size();
+			std::size_t m = (t.size() - 3) / g_dim;
+			if(k == 0 || k > n){ out << "bad-op"; }
+			else{
+			std::vector<std::vector<long long> > qs(m, std::vector<long long>(g_dim));
+			RealMatrix batch(m, g_dim);
+			for(std::size_t p = 0; p != m; ++p){
+				for(std::size_t d = 0; d != g_dim; ++d){ qs[p][d] = std::stoll(t[3 + p*g_dim + d]); batch(p,d) = sc(qs[p][d]); }
+				ann << " |";
+				RealVector qv = toVec(qs[p]);
+				for(Tree const* nd: g_pre)
+					ann << " " << vh::exactDouble(nd->squaredDistanceLowerBound(qv)) << " " << (nd->hasChildren() && nd->isLeft(qv) ? 1 : 0);
+			}
+			std::vector<RealVector> ys(n, RealVector(2));
+			for(std::size_t i = 0; i != n; ++i){ ys[i](0) = (double)g_labels[i]; ys[i](1) = (double)((long long)((7*i + 3) % 5) - 2); }
+			Data<RealVector> lab = createDataFromRange(ys, g_batchSize ? g_batchSize : (n > 5 ? 3 : 256));
+			LabeledData<RealVector, RealVector> ds(g_data, lab);
+			TreeNearestNeighbors<RealVector, RealVector> tnn(ds, g_tree.get());
+			SimpleNearestNeighbors<RealVector, RealVector> snn(ds, g_metric);
+			typedef NearestNeighborModel<RealVector, RealVector> M;
+			M mt(&tnn, (unsigned)k), ms(&snn, (unsigned)k);
+			// (setDistanceWeightType of the regression model cannot be instantiated on a tree with finding REG1,
+			// see harness/c17_regprobe.cpp; uniformWeights() is the member it is meant to set)
+			mt.uniformWeights() = !weighted;
+			ms.uniformWeights() = !weighted;
+			RealMatrix ot, os2;
+			mt.eval(batch, ot); ms.eval(batch, os2);
+			std::vector<std::string> oracle;
+			for(std::size_t p = 0; p != m; ++p){
+				if(p) out << " / ";
+				if(ot.size1() != m || os2.size1() != m || ot.size2() != 2 || os2.size2() != 2){ out << "wrong-size"; oracle.push_back("wrong-result:" + g_kind + ":reg-result-size"); continue; }
+				std::vector<long long> refTrue = refDistances(qs[p], false);
+				std::vector<std::pair<long long, std::size_t> > bf(n);
+				for(std::size_t i = 0; i != n; ++i) bf[i] = std::make_pair(refTrue[i], i);
+				std::stable_sort(bf.begin(), bf.end(), [](std::pair<long long,std::size_t> const& a, std::pair<long long,std::size_t> const& b){ return a.first < b.first; });
+				// ambiguous: a tie across the k-th boundary (the targets of the tied points differ in general)
+				bool ambiguous = k < n && bf[k-1].first == bf[k].first;
+				out << "reg tree=" << vh::exactDouble(ot(p,0)) << "," << vh::exactDouble(ot(p,1)) << " simple=";
+				bool same = true;
+				for(std::size_t c = 0; c != 2; ++c) same = same && std::fabs(ot(p,c) - os2(p,c)) <= 1e-12*(1.0 + std::fabs(ot(p,c)));
+				if(ambiguous) out << "*"; else out << (same ? "same" : "DIFF");
+				if(!ambiguous){
+					// expectation by definition from the brute-force neighbours
+					long double e[2] = {0, 0}, wsum = 0;
+					for(std::size_t i = 0; i != k; ++i){
+						long double w = 1;
+						if(weighted){ long double d = std::ldexp(std::sqrt((long double)bf[i].first), g_scale); w = d < 1e-100L ? 1e100L : 1.0L/d; }
+						for(std::size_t c = 0; c != 2; ++c) e[c] += w * (long double)ys[bf[i].second](c);
+						wsum += w;
+					}
+					bool okT = true, okS = true;
+					for(std::size_t c = 0; c != 2; ++c){
+						long double ex = e[c]/wsum;
+						okT = okT && std::fabs((double)(ot(p,c) - ex)) <= 1e-9*(1.0 + std::fabs((double)ex));
+						okS = okS && std::fabs((double)(os2(p,c) - ex)) <= 1e-9*(1.0 + std::fabs((double)ex));
+					}
+					if(!okT){
+						bool k1 = false;
+						if(k1Possible()){
+							// explained by the listed defect K1?  the mean over the k nearest w.r.t. the leaf-first distances
+							// (undecidable if tied there)
+							std::vector<long long> refP = refDistances(qs[p], true);
+							std::vector<std::pair<long long, std::size_t> > pf(n);
+							for(std::size_t i = 0; i != n; ++i) pf[i] = std::make_pair(refP[i], i);
+							std::stable_sort(pf.begin(), pf.end(), [](std::pair<long long,std::size_t> const& a, std::pair<long long,std::size_t> const& b){ return a.first < b.first; });
+							if(k < n && pf[k-1].first == pf[k].first) k1 = true;
+							else{
+								long double e2[2] = {0, 0}, ws2 = 0;
+								for(std::size_t i = 0; i != k; ++i){
+									long double w = 1;
+									if(weighted){ long double d = std::ldexp(std::sqrt((long double)pf[i].first), g_scale); w = d < 1e-100L ? 1e100L : 1.0L/d; }
+									for(std::size_t c = 0; c != 2; ++c) e2[c] += w * (long double)ys[pf[i].second](c);
+									ws2 += w;
+								}
+								k1 = true;
+								for(std::size_t c = 0; c != 2; ++c) k1 = k1 && std::fabs((double)(ot(p,c) - e2[c]/ws2)) <= 1e-9*(1.0 + std::fabs((double)(e2[c]/ws2)));
+							}
+						}
+						oracle.push_back(failKey("prediction", k1, true));
+					}
+					if(!okS) oracle.push_back("wrong-result:simple:regression");
+				}
+			}
+			for(std::string const& o: oracle) out << " !oracle " << o;
+			}
+		}
 		else if((op == "knn" || op == "model") && t.size() >= 3 + g_dim && (t.size() - 3) % g_dim == 0 && g_tree){
 			// one call of getNeighbors / eval on a BATCH of m >= 1 query points (m = number of coordinate groups);
 			// the observations of the patterns are joined by " / "
@@ -378,7 +526,7 @@ int main(int argc, char** argv){
 			std::vector<std::vector<long long> > qs(m, std::vector<long long>(g_dim));
 			RealMatrix batch(m, g_dim);
 			for(std::size_t p = 0; p != m; ++p){
-				for(std::size_t d = 0; d != g_dim; ++d){ qs[p][d] = std::stoll(t[3 + p*g_dim + d]); batch(p,d) = (double)qs[p][d]; }
+				for(std::size_t d = 0; d != g_dim; ++d){ qs[p][d] = std::stoll(t[3 + p*g_dim + d]); batch(p,d) = sc(qs[p][d]); }
 				ann << " |";
 				RealVector qv = toVec(qs[p]);
 				for(Tree const* nd: g_pre)
@@ -391,6 +539,39 @@ int main(int argc, char** argv){
 			typedef AbstractNearestNeighbors<RealVector, unsigned int>::DistancePair DP;
 			std::vector<DP> a, b;
 			UIntVector ot, os2; RealMatrix st;
+			// k > n (outside the property's quantifier, observed all the same): the tree back-end throws
+			// "No more neighbors available"; the exhaustive back-end pads with (DBL_MAX, label 0) entries
+			bool treeThrows = false;
+			if(k > n){
+				try{ a = tnn.getNeighbors(batch, k); }catch(std::exception const&){ treeThrows = true; }
+				if(op == "knn"){
+					b = snn.getNeighbors(batch, k);
+					for(std::size_t p = 0; p != m; ++p){
+						if(p) out << " / ";
+						std::vector<long long> refTrue = refDistances(qs[p], false);
+						std::sort(refTrue.begin(), refTrue.end());
+						bool ok = b.size() == k*m;
+						for(std::size_t i = 0; ok && i != k; ++i){
+							DP const& bi = b[i+p*k];
+							if(i < n) ok = bi.key == std::ldexp(std::sqrt((double)refTrue[i]), g_scale);
+							else ok = bi.key == std::sqrt(std::numeric_limits<double>::max()) && bi.value == 0;
+						}
+						out << (treeThrows ? "tree-throws" : "tree-returns") << " simple-pads=" << (ok ? (long long)(k - n) : -1LL);
+					}
+				}else{
+					typedef NearestNeighborModel<RealVector, unsigned int> M;
+					M ms(&snn, (unsigned)k);
+					ms.setDistanceWeightType(weighted ? M::ONE_OVER_DISTANCE : M::UNIFORM);
+					ms.eval(batch, os2);
+					for(std::size_t p = 0; p != m; ++p){
+						if(p) out << " / ";
+						out << "class tree=" << (treeThrows ? "throws" : "returns") << " simple=" << os2(p);
+					}
+				}
+				std::cout << out.str() << "\n";
+				if(annot.is_open()) annot << ann.str() << "\n";
+				continue;
+			}
 			if(op == "knn"){ a = tnn.getNeighbors(batch, k); b = snn.getNeighbors(batch, k); }
 			else{
 				typedef NearestNeighborModel<RealVector, unsigned int> M;
@@ -428,7 +609,7 @@ int main(int argc, char** argv){
 				std::string bad2;
 				for(std::size_t i = 0; i != k; ++i){
 					DP const& bi = b[i+p*k];
-					double sq = (double)bf[i].first, rt = std::sqrt(sq);
+					double sq = std::ldexp((double)bf[i].first, 2*g_scale), rt = std::ldexp(std::sqrt((double)bf[i].first), g_scale);
 					if(bi.key == rt){ out << " " << bf[i].first; if(bf[i].first < bf[k-1].first) inner.push_back(bi.value); }
 					else if(bi.key == sq){
 						out << " " << bf[i].first;
@@ -469,7 +650,7 @@ int main(int argc, char** argv){
 					std::vector<double> v(nc, 0.0); double wsum = 0;
 					for(std::size_t i = 0; i != k; ++i){
 						double w = 1.0;
-						if(weighted){ double d = pw == 1 ? std::sqrt((double)nb[i].first) : (double)nb[i].first; w = d < 1e-100 ? 1e100 : 1.0/d; }
+						if(weighted){ double d = pw == 1 ? std::ldexp(std::sqrt((double)nb[i].first), g_scale) : std::ldexp((double)nb[i].first, 2*g_scale); w = d < 1e-100 ? 1e100 : 1.0/d; }
 						if(nb[i].second < nc) v[nb[i].second] += w;
 						wsum += w;
 					}
